@@ -22,6 +22,16 @@ type respSink struct {
 	Instr  ssa.CallInstruction
 	Kind   respKind
 	Status int64
+	Via    *ssa.BasicBlock // for one alternative of a merged status: the block the alternative arrives from
+}
+
+// At: the instruction whose reachability stands for "this status is written" — the sink itself, or for an
+// alternative of a merged status the end of the block that alternative arrives from.
+func (s respSink) At() ssa.Instruction {
+	if s.Via != nil {
+		return s.Via.Instrs[len(s.Via.Instrs)-1]
+	}
+	return s.Instr
 }
 
 func isResponseWriter(t types.Type) bool {
@@ -110,17 +120,22 @@ func responseSinks(fn *ssa.Function) []respSink {
 				switch com.Method.Name() {
 				case "WriteHeader":
 					if n, ok := intConst(com.Args[0]); ok {
-						out = append(out, respSink{c, respStatusConst, n})
+						out = append(out, respSink{c, respStatusConst, n, nil})
+					} else if alts, ok := constAlternatives(com.Args[0]); ok {
+						// a merge of constants (the status chosen by a helper, or on different branches): one of them
+						for _, a := range alts {
+							out = append(out, respSink{c, respStatusConst, a.n, a.via})
+						}
 					} else {
-						out = append(out, respSink{c, respStatusDyn, 0})
+						out = append(out, respSink{c, respStatusDyn, 0, nil})
 					}
 				case "Write":
-					out = append(out, respSink{c, respBody, 0})
+					out = append(out, respSink{c, respBody, 0, nil})
 				}
 				continue
 			}
 			if calleeIs(c, "encoding/json", "Encoder", "Encode") && len(com.Args) >= 1 && enc[com.Args[0]] {
-				out = append(out, respSink{c, respBody, 0})
+				out = append(out, respSink{c, respBody, 0, nil})
 				continue
 			}
 			// other calls that receive w
@@ -140,20 +155,20 @@ func responseSinks(fn *ssa.Function) []respSink {
 				// fmt.Fprint*, io.WriteString, io.Copy, http.Error …
 				if f.Pkg != nil && f.Pkg.Pkg.Path() == "net/http" && f.Name() == "Error" && len(com.Args) == 3 {
 					if n, ok := intConst(com.Args[2]); ok {
-						out = append(out, respSink{c, respHelperErr, n})
+						out = append(out, respSink{c, respHelperErr, n, nil})
 						continue
 					}
 				}
 				if f.Pkg != nil && f.Pkg.Pkg.Path() == "net/http" && f.Name() == "MaxBytesReader" {
 					continue
 				}
-				out = append(out, respSink{c, respBody, 0})
+				out = append(out, respSink{c, respBody, 0, nil})
 				continue
 			}
 			// module helper: summarise how it sets the status
 			f := com.StaticCallee()
 			if f == nil {
-				out = append(out, respSink{c, respHelper, 0})
+				out = append(out, respSink{c, respHelper, 0, nil})
 				continue
 			}
 			pi, consts, any := helperStatusSummary(f, 0)
@@ -162,17 +177,17 @@ func responseSinks(fn *ssa.Function) []respSink {
 				// receiver is Args[0] for methods: helperStatusSummary indexes f.Params, same as Args
 				if n, ok := intConst(com.Args[pi]); ok {
 					if n >= 200 && n < 300 {
-						out = append(out, respSink{c, respHelper, n})
+						out = append(out, respSink{c, respHelper, n, nil})
 					} else {
-						out = append(out, respSink{c, respHelperErr, n})
+						out = append(out, respSink{c, respHelperErr, n, nil})
 					}
 				} else {
-					out = append(out, respSink{c, respStatusDyn, 0})
+					out = append(out, respSink{c, respStatusDyn, 0, nil})
 				}
 			case any && len(consts) > 0 && allNon2xx(consts):
-				out = append(out, respSink{c, respHelperErr, consts[0]})
+				out = append(out, respSink{c, respHelperErr, consts[0], nil})
 			default:
-				out = append(out, respSink{c, respHelper, 0})
+				out = append(out, respSink{c, respHelper, 0, nil})
 			}
 		}
 	}
@@ -232,4 +247,47 @@ func helperStatusSummary(f *ssa.Function, depth int) (paramIdx int, consts []int
 		}
 	}
 	return
+}
+
+type constAlt struct {
+	n   int64
+	via *ssa.BasicBlock
+}
+
+// constAlternatives: v is a merge (φ, possibly nested) of integer constants only; each alternative with the
+// predecessor block of the outermost merge it arrives from.
+func constAlternatives(v ssa.Value) ([]constAlt, bool) {
+	top, isPhi := v.(*ssa.Phi)
+	if !isPhi {
+		return nil, false
+	}
+	var out []constAlt
+	for i, e := range top.Edges {
+		seen := map[ssa.Value]bool{}
+		var walk func(v ssa.Value) bool
+		walk = func(v ssa.Value) bool {
+			if seen[v] {
+				return true
+			}
+			seen[v] = true
+			if n, ok := intConst(v); ok {
+				out = append(out, constAlt{n, top.Block().Preds[i]})
+				return true
+			}
+			phi, ok := v.(*ssa.Phi)
+			if !ok {
+				return false
+			}
+			for _, e2 := range phi.Edges {
+				if !walk(e2) {
+					return false
+				}
+			}
+			return true
+		}
+		if !walk(e) {
+			return nil, false
+		}
+	}
+	return out, len(out) > 0
 }
